@@ -192,9 +192,9 @@ def gen_expr(rng, depth, sloppy):
             return A.Float(rng.choice([0.5, 2.0, 0.0, -0.0]))
         name = rng.choice(sorted(ORDERS))
         order = ORDERS[name]
-        if sloppy and rng.random() < 0.15:
+        if sloppy and rng.random() < 0.2:
             order = max(0, order + rng.choice([-1, 1]))  # InconsistentDimensionsError candidates
-        pool = INDEXES + (["A", "T"] if sloppy and rng.random() < 0.1 else [])  # NameConflictError candidates
+        pool = INDEXES + (["A", "T"] if sloppy and rng.random() < 0.2 else [])  # NameConflictError candidates
         return A.Tensor(name, tuple(rng.choice(pool) for _ in range(order)))
     op = rng.choice([A.Add, A.Subtract, A.Multiply])
     return op(gen_expr(rng, depth - 1, sloppy), gen_expr(rng, depth - 1, sloppy))
